@@ -7,7 +7,7 @@ BASE = dict(
     Accts=S(['a1', 'a2', 'a3']), FeeUnit=1000, MaxHeight=3, Deviations=S(),
     Topics=S(), Descs=S(['x']), Mons=S(['m']), RecKeys=S(['k1']), RecVals=S(['v1', 'v2']), FeePayers=S(['none']),
     Dids=S(), DocNames=S(), Keys=S(), VmNames=S(), Seqs=S([0, 1, 2]),
-    DenomIds=S(), TokenIds=S(), DNames=S(),
+    DenomIds=S(), TokenIds=S(), DNames=S(), TDescs=S(['']),
     Amts=S(), SendDenoms=S(), VestEnds=S(),
     Fees=S([0]), Kinds=S(), SignerSets='exact', ExecOn=False,
     MaxDeliver=5, MaxTxLen=1, Mints=S([0]), NextKinds=S(['BeginBlock']), FailKeep=1, SimSample=0, BlockKeep=1,
@@ -18,6 +18,7 @@ AOL_KINDS = S(['aol.CreateTopic', 'aol.AddWriter', 'aol.DeleteWriter', 'aol.AddR
 DID_KINDS = S(['did.Create', 'did.Update', 'did.Deactivate'])
 PN_KINDS = S(['pnft.CreateDenom', 'pnft.UpdateDenom', 'pnft.DeleteDenom', 'pnft.TransferDenom', 'pnft.Mint', 'pnft.Transfer', 'pnft.Burn'])
 ALL_NEXT = S(['BeginBlock', 'RestartBegin', 'ExportImportBegin'])
+ALL_NEXT_R = ALL_NEXT | S(['Redeliver'])
 
 
 def mk(**kw):
@@ -75,7 +76,7 @@ def preset(pid, tier):
             mc=aol(MaxDeliver=5 if q else 6, NextKinds=ALL_NEXT, MaxHeight=3),
             props=['P_C01', 'P_C08', 'P_C10'], invs=['I_C01'],
             sims=[sim(aol(Accts=S(['a1', 'a2', 'a3', 'a4']), Topics=S(['t1', 't2', 't3']), ViewTopics=S(['t1', 't2', 't3']), RecKeys=S(['k1', 'k2', '']), RecVals=S(['v1', 'v2', '']),
-                          MaxDeliver=40, MaxHeight=8, NextKinds=ALL_NEXT, FailKeep=40), 120 if q else 2000, 50),
+                          MaxDeliver=40, MaxHeight=8, NextKinds=ALL_NEXT_R, FailKeep=40), 120 if q else 2000, 50),
                   sim(aol(MaxDeliver=12, MaxHeight=6, NextKinds=ALL_NEXT, FailKeep=10), 80 if q else 1500, 25, genesis=dict(mint=True))])
     if pid == 'C02':
         return dict(
@@ -97,7 +98,7 @@ def preset(pid, tier):
         c = mk(Topics=S(['t1']), ViewTopics=S(['t1']), RecVals=S(['v1']), FeePayers=S(['none', 'a2']), Accts=S(['a1', 'a2']),
                Dids=S(['d1']), ViewDids=S(['d1']), Keys=S(['k1']), VmNames=S(['v1']), DocNames=S(['A1']),
                DenomIds=S(['n1']), TokenIds=S(['i1']), DNames=S(['x']), ViewDenoms=S(['n1']), ViewTokens=S(['i1']),
-               Kinds=kinds, Fees=S([0, 1]), MaxTxLen=2, MaxDeliver=2 if q else 3, MaxHeight=2)
+               Kinds=kinds, Fees=S([0, 1]), MaxTxLen=2, MaxDeliver=2 if q else 3, MaxHeight=2, NextKinds=S(['BeginBlock', 'Redeliver']))
         big = copy.deepcopy(c)
         big.update(Accts=S(['a1', 'a2', 'a3']), FeePayers=S(['none', 'a1', 'a3']), MaxDeliver=20, MaxHeight=5, FailKeep=2,
                    Kinds=kinds | S(['aol.DeleteWriter']), DocNames=S(['A1', 'A2']), Keys=S(['k1', 'k2']))
@@ -105,12 +106,12 @@ def preset(pid, tier):
     if pid in ('C03', 'C04', 'C05', 'C11'):
         props = {'C03': ['P_C03'], 'C04': ['P_C04'], 'C05': ['P_C05', 'P_C08', 'P_C10'], 'C11': []}[pid]
         invs = {'C03': [], 'C04': ['I_C04'], 'C05': ['I_C05'], 'C11': ['I_C11']}[pid]
-        docs = S(['A1', 'A2', 'C1', 'D2']) if q else S(['A1', 'A2', 'B12', 'C1', 'D2', 'E1'])
+        docs = S(['A1', 'A2', 'C1', 'D2']) if q else S(['A1', 'A2', 'B12', 'C1', 'D2', 'E1', 'F12'])
         mcc = did(DocNames=docs, MaxDeliver=4 if q else 5, MaxHeight=3 if pid == 'C05' else 2,
-                  NextKinds=ALL_NEXT if pid == 'C05' else S(['BeginBlock']))
+                  NextKinds=ALL_NEXT if pid == 'C05' else (S(['BeginBlock', 'Redeliver']) if pid == 'C04' else S(['BeginBlock'])))
         simc = did(Accts=S(['a1', 'a2', 'a3']), Dids=S(['d1', 'd2', 'dc']), ViewDids=S(['d1', 'd2', 'dc']),
-                   DocNames=S(['A1', 'A2', 'B12', 'C1', 'D2', 'E1', 'N0', 'EMP']), MaxDeliver=30, MaxHeight=6, NextKinds=ALL_NEXT, FailKeep=25)
-        tourc = did(DocNames=S(['A1', 'A2', 'C1']) if q else S(['A1', 'A2', 'C1', 'D2']), Keys=S(['k1', 'k2']) if q else S(['k1', 'k2', 'k3']), MaxDeliver=2 if q else 3, MaxHeight=2)
+                   DocNames=S(['A1', 'A2', 'B12', 'C1', 'D2', 'E1', 'F12', 'N0', 'EMP']), MaxDeliver=30, MaxHeight=6, NextKinds=ALL_NEXT_R, FailKeep=25)
+        tourc = did(DocNames=S(['A1', 'A2', 'F12']) if q else S(['A1', 'A2', 'C1', 'D2', 'F12']), Keys=S(['k1', 'k2']) if q else S(['k1', 'k2', 'k3']), MaxDeliver=2 if q else 3, MaxHeight=2)
         return dict(mc=mcc, props=props, invs=invs, tour=tourc, sims=[sim(simc, 150 if q else 3000, 50)], mc_timeout=2400)
     if pid in ('C06', 'C12'):
         props = {'C06': ['P_C06'], 'C12': ['P_C12']}[pid]
@@ -119,7 +120,7 @@ def preset(pid, tier):
                  ViewTokens=S(['i1']) if pid == 'C06' else S(['i1', 'i2']))
         simc = pn(Accts=S(['a1', 'a2', 'a3', 'a4']), DenomIds=S(['n1', 'n2', 'n3', 'nz']), TokenIds=S(['i1', 'i2', 'i3', 'iz']), ViewDenoms=S(['n1', 'n2', 'n3', 'nz']),
                   ViewTokens=S(['i1', 'i2', 'i3', 'iz']),
-                  DNames=S(['x', 'y']), SignerSets='all', ExecOn=True, Kinds=PN_KINDS | S(['authz.Grant']), MaxDeliver=40, MaxHeight=6, NextKinds=ALL_NEXT, FailKeep=30)
+                  DNames=S(['x', 'y']), TDescs=S(['', 'q']), SignerSets='all', ExecOn=True, Kinds=PN_KINDS | S(['authz.Grant']), MaxDeliver=40, MaxHeight=6, NextKinds=ALL_NEXT, FailKeep=30)
         tourc = pn(Accts=S(['a1', 'a2', 'a3']) if pid == 'C06' else S(['a1', 'a2']), SignerSets='all' if pid == 'C06' else 'exact', DenomIds=S(['n1', 'n2']) if pid == 'C12' else S(['n1']),
                    TokenIds=S(['i1']), ViewDenoms=S(['n1', 'n2']), ViewTokens=S(['i1']), MaxDeliver=3 if q else 4, MaxHeight=2)
         # a generator that believes NUL-bearing identifiers are fine: long chains of messages over aliasing pairs (nz,iy)/(n1,iz).
@@ -142,7 +143,7 @@ def preset(pid, tier):
         simc = mk(Accts=S(['a1', 'a2', 'a3', 'a4']), Topics=S(['t1', 't2', 't3']), ViewTopics=S(['t1', 't2', 't3']), RecKeys=S(['k1', 'k2', '']), RecVals=S(['v1', 'v2', '']),
                   Descs=S(['x', '']), Mons=S(['m', '']),
                   Dids=S(['d1', 'd2']), ViewDids=S(['d1', 'd2']), Keys=S(['k1', 'k2']), VmNames=S(['v1', 'v2']), DocNames=S(['A1', 'A2', 'B12', 'C1', 'D2']),
-                  DenomIds=S(['n1', 'n2', 'n3']), TokenIds=S(['i1', 'i2', 'i3']), DNames=S(['x', 'y']), ViewDenoms=S(['n1', 'n2', 'n3']), ViewTokens=S(['i1', 'i2', 'i3']),
+                  DenomIds=S(['n1', 'n2', 'n3']), TokenIds=S(['i1', 'i2', 'i3']), DNames=S(['x', 'y']), TDescs=S(['', 'q']), ViewDenoms=S(['n1', 'n2', 'n3']), ViewTokens=S(['i1', 'i2', 'i3']),
                   Kinds=allk, MaxDeliver=60, MaxHeight=8, NextKinds=S(['BeginBlock', 'ExportImportBegin']), FailKeep=40)
         return dict(mc=mcc, props=['P_C08'], invs=[], sims=[sim(simc, 120 if q else 2500, 70)], mc_timeout=2400)
     raise KeyError(pid)
